@@ -19,7 +19,8 @@ LEVEL = 'exploration'
 RULE = ('random type universes (primitives with facets, nested complex types across namespaces, inheritance, wrapped and '
         'unwrapped arrays, XmlAttribute/XmlData, enums; wrapped/bare/out_bare methods; 0..3 return values) x protocol x validator; '
         'boundary-biased conformant values; non-trivial = user function entered with at least one non-null argument or a non-null '
-        'return decoded; distinct by (protocol, validator, driver, argument/return shapes, value classes).')
+        'return decoded; distinct by (protocol, validator, driver, argument/return shapes, value classes).'
+        ' Also: requests written the way other toolkits write them (white space around collapse-type literals, indentation, comments, PIs, CDATA), public member names that differ from the attribute names (sub_name), Decimal(total_digits, fraction_digits), classes that contain themselves, SOAP headers in subsets, id/href attribute universes, the spyne client library round trip.')
 ASSUMPTIONS = [
     'reference codec vflib/refxml.py (driven by the published WSDL/XSD) + vflib/lex.py are trusted; every reference request is first validated against the published schema (invalid => skipped, C06 looks at it)',
     'zeep comparisons only for value classes zeep can represent; universes without default= values',
